@@ -139,6 +139,13 @@ func (m *PartitionLeaseManager) Owns(topic string, partition int32) bool {
 	return m.lm.Owns(partitionResourceID(topic, partition))
 }
 
+// LeaseRevision returns the etcd revision of the lease currently held for the
+// partition, and false if this broker does not hold it. The revision changes
+// every time the lease is acquired again after having been lost or released.
+func (m *PartitionLeaseManager) LeaseRevision(topic string, partition int32) (int64, bool) {
+	return m.lm.Revision(partitionResourceID(topic, partition))
+}
+
 // Release explicitly gives up ownership of a single partition.
 func (m *PartitionLeaseManager) Release(topic string, partition int32) {
 	m.lm.Release(partitionResourceID(topic, partition))
